@@ -1659,9 +1659,25 @@ func c15BuilderCase(c *kit.Case) {
 	}
 	// one walk in three uses a Builder for the second time (after Reset)
 	reused := r.Chance(1, 3)
+	// (half of those first build a small stream which the caller keeps through
+	// the exported Stream field, as code all over the library does)
+	var keptOps []content.Operator
+	var keptCanon string
 	newBuilder := func() *builder.Builder {
 		b := builder.New(ct, nil, version)
 		if reused {
+			if ct != content.Glyph && r.Bool() {
+				b.PushGraphicsState()
+				b.SetLineWidth(2)
+				b.MoveTo(10, 10)
+				b.LineTo(20, 20)
+				b.Stroke()
+				b.PopGraphicsState()
+				if b.Err == nil {
+					keptOps = b.Stream
+					keptCanon = c15CanonSeq(keptOps)
+				}
+			}
 			b.Reset()
 		}
 		return b
@@ -1804,6 +1820,13 @@ func c15BuilderCase(c *kit.Case) {
 			c.Violationf("builder/harvested-segment-changed/"+key, "Builder(%v, %s) calls %v\nthe segments handed out by Harvest no longer hold the operators that were emitted\n%s", ct, version, names, detail)
 			return
 		}
+	}
+	if keptOps != nil {
+		if got := c15CanonSeq(keptOps); got != keptCanon {
+			c.Violationf("builder/stream-kept-across-reset-changed", "Builder(%v, %s): a stream built before Reset and kept through the Stream field\n was:    %s\n is now: %s\nafter the calls %v", ct, version, kit.Trunc(keptCanon, 300), kit.Trunc(got, 300), names)
+			return
+		}
+		c.R.Count("streams_kept_across_reset_unchanged", 1)
 	}
 	c.R.Count("builder_walks", 1)
 	c.R.Count("builder_operators", int64(len(ops.Ops)))
